@@ -303,8 +303,15 @@ func (acc *ElementAccumulator) addLeaves(leaves []elementLeaf) [64][]types.Hash2
 			// proofs we encounter will be under to the right-hand tree, and the
 			// next 2^height proofs will be under to the left-hand tree.
 			oldRoot := acc.Trees[height]
-			startOfNewTree := i - 1<<height
-			startOfOldTree := i - 1<<(height+1)
+			// NOTE: both trees may start before leaves[0]; clamp, since the
+			// shifts overflow int (which may be 32 bits wide) for tall trees.
+			startOfNewTree, startOfOldTree := -1, -1
+			if height < bits.UintSize-1 && 1<<height <= i {
+				startOfNewTree = i - 1<<height
+			}
+			if height+1 < bits.UintSize-1 && 1<<(height+1) <= i {
+				startOfOldTree = i - 1<<(height+1)
+			}
 			j := i
 			for ; j > startOfNewTree && j >= 0; j-- {
 				leaves[j].MerkleProof = append(leaves[j].MerkleProof, oldRoot)
